@@ -16,7 +16,7 @@ let observe f tbl acc offers =
   let qs = cat "|" (fun o -> match quality mt acc o with Ok q -> qstr q | Err e -> errs e) offers in
   let ins = cat "|" (fun o -> match contains mt acc o with Ok true -> "1" | Ok false -> "0" | Err e -> errs e) offers in
   let b = match best acc with None -> "~" | Some v -> csv_of_nlist v in
-  ignore sp; String.concat " " ["ok"; cat "|" itemstr acc; b; bm; qs; ins]
+  ignore sp; String.concat " " ["ok"; cat "|" itemstr acc; b; bm; qs; ins; csv_of_nlist (to_header acc); cat "|" csv_of_nlist (values acc)]
 let () = iter_lines (fun line ->
   match fields line with
   | ["hdr"; f; h; offers; tbl] ->
